@@ -240,6 +240,21 @@ def run(ctx) -> None:
     getitem = repo.method(MOD, "OrdinalAxis", "__getitem__")
     ctx.require(len(getitem.positional_params) == 2, f"{getitem.qualname}: expected (self, item)")
     item = getitem.positional_params[1]
+    # the scalar arm must take every integer scalar: np.int64 (an argmin result) is not an `int`
+    INTEGRAL_OK = {"Number", "numbers.Number", "Integral", "numbers.Integral", "Real", "numbers.Real", "SupportsIndex"}
+    tests = [c for c in walk_no_nested(getitem.node) if isinstance(c, ast.Call) and call_name(c) == "isinstance"
+             and len(c.args) == 2 and dotted(c.args[0]) == item]
+    for t_ in tests:
+        ty = t_.args[1]
+        names = {dotted(e) or norm_text(e) for e in (ty.elts if isinstance(ty, (ast.Tuple, ast.List)) else [ty])}
+        covers = bool(names & INTEGRAL_OK) or ({"int"} <= names and bool(names & {"np.integer", "numpy.integer",
+                                                                                   "np.generic", "np.number"}))
+        if names & {"int", "float", "np.integer"} or names & INTEGRAL_OK:
+            ctx.check(covers, "R-ORDINAL", f"{getitem.qualname}:scalar test", getitem.loc(t_),
+                      f"`{norm_text(t_)}` accepts Python and NumPy integer scalars",
+                      f"`{norm_text(t_)}` does not accept every integer scalar: a NumPy integer (np.int64 from argmin, "
+                      "an element of an index array) falls into the index-array arm, which flattens tuple-valued axes "
+                      "and raises for scalar-valued ones", key_detail="scalar-test")
     kw, df, ret = _rebuild(ctx, getitem, "R-ORDINAL")
     stores = _field_stores(getitem, kw)
     ctx.require(len(stores) >= 1, f"{getitem.qualname}: the 'values' entry is never replaced")
